@@ -113,6 +113,12 @@ impl AddressRecord {
         self.score
     }
 
+    /// Get address score (verification seam).
+    #[cfg(litep2p_verif)]
+    pub fn verif_score(&self) -> i32 {
+        self.score
+    }
+
     /// Get address.
     pub fn address(&self) -> &Multiaddr {
         &self.address
